@@ -1,4 +1,4 @@
-/- Kernel obligation: `bfChk` (Proofs/C11_NumDefs.lean) on the 16-bit patterns 0x9000..0x9fff. -/
+/- Kernel obligation: `bfChk` (Proofs/C11_NumDefs.lean) on the 16-bit patterns 0x2400..0x27ff. -/
 import BitstringModel.Proofs.C11_NumDefs
 namespace BM.C11
 theorem bfChunk_09 : bfChunkOk 9 = true := by decide +kernel
